@@ -18,7 +18,8 @@ EXPLANATION = (
     'polarity (P2, P3); the sign multiplication is applied and undone '
     'symmetrically (P4); all reshapes use the (lattice, units, dims, terms) '
     'factor order (X3). Monotone/bounded outputs over all inputs are a theorem '
-    'about products of interpolants and are NOT decided here.')
+    'about products of interpolants and are NOT decided here.'
+    ' Also decided: finalize_constraints stores the projection with assign, not assign_add of a difference (R1); gradient masks take the operand dtype (D1); with clip_inputs on, every path of the KFL evaluation clips (X5); abs is taken before the maximum (B1).')
 ASSUMPTIONS = [
     'Keras re-applies variable.constraint after each optimizer update',
     'the abstract states none/zero/non-zero (bounds) and none/empty/all-zero/'
